@@ -544,15 +544,16 @@ func (db *RockDB) ZIncrBy(ts int64, key []byte, delta float64, member []byte) (f
 
 	score = oldScore + delta
 
-	sk := zEncodeScoreKey(false, false, table, rk, member, score)
-	wb.Put(sk, []byte{})
-	wb.Put(ek, PutFloat64(score))
-
 	if v != nil {
-		// so as to update score, we must delete the old one
+		// so as to update score, we must delete the old one. This has to come before the new
+		// score key is put: when the score does not change (ZINCRBY 0, or a delta that is lost
+		// in the float) both are the same key and a later delete would remove the entry.
 		oldSk := zEncodeScoreKey(false, false, table, rk, member, oldScore)
 		wb.Delete(oldSk)
 	}
+	sk := zEncodeScoreKey(false, false, table, rk, member, score)
+	wb.Put(sk, []byte{})
+	wb.Put(ek, PutFloat64(score))
 
 	err = db.rockEng.Write(wb)
 	return score, err
